@@ -256,9 +256,11 @@ func (s *Sched) Run() {
 			if len(ready) == 0 {
 				s.mu.Unlock()
 				if !nextWake.IsZero() {
+					s.logf("advance clock by %v to next simulated wake-up", nextWake.Sub(now))
 					time.Sleep(nextWake.Sub(now)) // advance the fake clock to the next simulated wake-up
 					continue
 				}
+				s.logf("nothing ready among %d parked: waiting for timers of the code under test", len(s.parked))
 				// Tasks are parked but none can proceed. Other goroutines may
 				// still be waiting on fake-time timers (timeouts); let the
 				// clock move by blocking on the kick channel with a guard timer.
